@@ -109,3 +109,148 @@ def deep(rng):
         return '\n'.join(f + rng.choice(['', ' ', 'py ']) + '{' + attrs + '}' + '\n' + (w or 'x') + '\n' + f for _ in range(n)), 'fence-attrs'
     d = rng.randint(2, 30)
     return '\n\n'.join('[^%d]: %s' % (i, '    ' * 0 + 'n [^%d]' % ((i + 1) % d)) for i in range(d)) + '\n\n' + ' '.join('[^%d]' % i for i in range(d)), 'footnote-chain'
+
+
+# ---------------------------------------------------------------- alternating container nesting (quotes between lists)
+# The block-quote processor refuses to nest once the interpreter is within 100 frames of its recursion limit, so any
+# nesting in which list levels are separated by quote levels is survived by the implementation whatever its depth (the
+# remaining markers become paragraph text).  These are legitimate inputs: units of 2-4 markers with at least one quote,
+# hence never more than 3 list levels in a row (pure list nesting deeper than 60 is F-C02-3 and is not generated).
+def _alt_unit(rng):
+    while True:
+        u = [rng.choice('quo') for _ in range(rng.randint(2, 4))]
+        if 'q' in u and ('u' in u or 'o' in u):
+            return u
+
+
+def nest(levels, rng, multi):
+    """text of the nesting `levels` (outermost first; q quote, u bullet list, o ordered list) around the word x;
+    multi: every level has a line of its own text before the nested container, otherwise all markers sit on one line"""
+    lines = ['x']
+    for lv in reversed(levels):
+        if lv == 'q':
+            m = rng.choice(['> ', '> ', '>'])
+            body = [m + ln for ln in lines]
+            lines = [m + 'a', m.rstrip()] + body if multi else body
+        else:
+            m = rng.choice(['- ', '* ', '+ ']) if lv == 'u' else rng.choice(['1. ', '7. ', '12. '])
+            if multi:
+                lines = [m + 'a', ''] + ['    ' + ln if ln else ln for ln in lines]
+            else:
+                lines = [m + lines[0]] + ['    ' + ln for ln in lines[1:]]
+    return '\n'.join(lines)
+
+
+def alternating(rng):
+    u = _alt_unit(rng)
+    multi = rng.random() < 0.3
+    d = rng.randint(40, 150) if multi else rng.randint(100, 700)      # levels (a pair quote+list is two)
+    off = rng.randrange(len(u))
+    levels = [u[(i + off) % len(u)] for i in range(d)]
+    if rng.random() < 0.2:      # an irregular order instead of a repeated unit (still at most 3 list levels in a row)
+        levels = []; run = 0
+        while len(levels) < d:
+            c = rng.choice('quo')
+            if c != 'q' and run >= 3: c = 'q'
+            run = 0 if c == 'q' else run + 1
+            levels.append(c)
+    t = nest(levels, rng, multi)
+    if rng.random() < 0.2:
+        t = rng.choice(['a\n\n', '# h\n', '<div markdown="1">\n', '[^1]: ', '!!! note\n    ', ': ']) + t
+    return t, 'alternating:' + ('multi-line' if multi else 'one-line')
+
+
+# ---------------------------------------------------------------- headings that contain raw inline HTML fragments
+HFRAG_TAG = ['<b>', '</b>', '<i>x</i>', '<span class="c">', '</span>', '<br>', '<br/>', '<img src="s" alt="a>b">', '<a href="u">', '</a>', '<kbd>k</kbd>', '<x-y z>',
+             '<b', 'b>', '<', '>', '<<', '>>', '</', '/>', '<b c="', '">', "<i d='", '<!DOCTYPE x>', '<![CDATA[z]]>', ']]>', '<script>', '</script>', '<style>s</style>']
+HFRAG_CMT = ['<!-- c -->', '<!--c-->', '<!-- a -- b -->', '<!-- <b> -->', '<!--', '-->', '-->', '<!--', '<!-->', '<!--->', '--!>', '<!', '<!-', '->', '--', '<!---->', '<!-- `', '` -->']
+HFRAG_PI = ['<?php x ?>', '<? y ?>', '<?', '?>', '<?x', '?', '<?php echo "<!--"; ?>']
+HFRAG_ENT = ['&amp;', '&lt;', '&gt;', '&#60;', '&#x3e;', '&#62', '&', '&#', '&nosuch;', '&lt;!--', '--&gt;']
+HFRAG_MD = ['a', 'b c', 'Zz', 'é', '1', '*e*', '**s**', '_e_', '`c`', '`<!--`', '`-->`', '`<b>`', '[l](u)', '[l](u "-->")', '![i](s)', '[r][]', '\\<', '\\>', '\\-', '\\!', '{#id}', '{: .c }',
+            '{: #i k="-->" }', '"q"', "'s'", '---', '...', '<<q>>', '[^1]', '#', '##', '[TOC]', 'ABBR', '[[w]]', '<http://a.b/-->', '<a@b.c>', '  ']
+TOC_FRIENDS = ['toc', 'attr_list', 'smarty', 'md_in_html', 'extra', 'abbr', 'footnotes', 'wikilinks', 'legacy_attrs', 'nl2br']
+
+
+def _hnested(rng):
+    """a raw inline construct whose inside is again a sequence of fragments: a start tag with fragments where its attributes
+    would be, a comment or PI around fragments — so that openers and closers of one kind occur inside constructs of another"""
+    inner = rng.choice(['', ' ']).join(rng.choice(rng.choice([HFRAG_CMT, HFRAG_CMT, HFRAG_PI, HFRAG_ENT, HFRAG_TAG, ['a', 'b="c"', "d='e'", 'f=g', '/', '=']]))
+                                       for _ in range(rng.randint(1, 3)))
+    k = rng.randrange(6)
+    if k <= 2: return '<' + rng.choice(['b', 'i', 'span', 'a', 'img', 'x-y', '/b']) + ' ' + inner + rng.choice(['>', '>', '/>', ' >'])
+    if k == 3: return '<!--' + rng.choice(['', ' ']) + inner + rng.choice(['', ' ']) + '-->'
+    if k == 4: return '<?' + rng.choice(['', 'php ']) + inner + '?>'
+    return '<' + rng.choice(['b', 'span']) + ' t="' + inner.replace('"', '') + '">'
+
+
+def _hfrags(rng, lo=1, hi=7):
+    groups = [HFRAG_TAG, HFRAG_TAG, HFRAG_CMT, HFRAG_CMT, HFRAG_CMT, HFRAG_PI, HFRAG_ENT, HFRAG_MD, HFRAG_MD]
+    return rng.choice(['', ' ', ' ', ' ']).join(_hnested(rng) if rng.random() < 0.2 else rng.choice(rng.choice(groups)) for _ in range(rng.randint(lo, hi)))
+
+
+def heading_html(rng):
+    """1-4 headings (ATX any level/closing, Setext) whose text is a sequence of inline HTML fragments — tags, comments,
+    stray comment openers/closers, PIs, entities, in any order — mixed with inline Markdown; paragraphs, a TOC marker and
+    containers around them"""
+    out = []
+    if rng.random() < 0.4: out.append(rng.choice(['[TOC]', '[TOC]', ' [TOC] ', '[toc]']))
+    for _ in range(rng.randint(1, 4)):
+        body = _hfrags(rng)
+        k = rng.random()
+        if k < 0.7:
+            h = '#' * rng.randint(1, 6) + rng.choice([' ', ' ', '']) + body + rng.choice(['', '', ' #', ' ##', ' {#x}', ' {: .c #y }'])
+        elif k < 0.9:
+            h = (body.replace('\n', ' ') or 'a') + '\n' + rng.choice(['===', '---', '=', '-'])
+        else:
+            h = '#' * rng.randint(1, 6) + ' ' + body + '\n' + _hfrags(rng, 1, 3)      # heading glued to a following line
+        w = rng.random()
+        if w < 0.08: h = '> ' + h.replace('\n', '\n> ')
+        elif w < 0.16: h = '- ' + h.replace('\n', '\n    ')
+        elif w < 0.24: h = '<div markdown="1">\n' + h + '\n</div>'
+        elif w < 0.28: h = '!!! note\n    ' + h.replace('\n', '\n    ')
+        out.append(h)
+        if rng.random() < 0.4: out.append(_hfrags(rng, 1, 5))
+        if rng.random() < 0.1: out.append(rng.choice(['<div>\n' + _hfrags(rng) + '\n</div>', '<!--\n' + _hfrags(rng, 1, 3) + '\n-->', '[^1]: ' + _hfrags(rng, 1, 3), '*[ABBR]: t', '[r]: /u']))
+    return rng.choice(['\n\n', '\n\n', '\n']).join(out), 'heading-html'
+
+
+# ---------------------------------------------------------------- md_in_html containers with raw and Markdown blocks in any order
+RAW_BLOCKS = ['<pre>raw</pre>', '<pre>raw</pre>', '<pre>\nraw *x*\n\n    more\n</pre>', '<pre><code>a &amp; b</code></pre>', '<p>raw</p>', '<p>a\nb *c*</p>', '<p>unclosed',
+              '<table><tr><td>c</td></tr></table>', '<table>\n<tr>\n<td>*c*</td>\n</tr>\n</table>', '<hr>', '<hr />', '<div>raw</div>', '<div>\n\nx\n\n</div>', '<ul><li>x</li></ul>',
+              '<script>s < 1</script>', '<!-- c -->', '<h2>raw</h2>', '<textarea>\n    t\n</textarea>', '<br>', '<img src="s">', '<p>', '</p>', '</div>', '<pre>', '</pre>', '<?php x ?>']
+MD_BLOCKS = ['para *e*', 'two\nlines', '# h', '## h ##', 'h\n===', 'h\n---', '- a\n- b', '* a\n\n    cont', '1. a\n2. b', '> q', '> q\n> r\n\n> s', '    code', '    code', '    code\n\n    more',
+             '\tcode', '```\nfence\n```', '~~~ py\nf\n~~~', '```\nunclosed', '***', '---', '[r]: /u "t"', '| a | b |\n|---|---|\n| c | d |', 'Term\n: def', 'Term\n\n:   def\n\n        code',
+             '!!! note\n    x', '!!! note', '[^1]: fn\n\n    more', '*[A]: b', 'a[^1] [r] A', '', ' ', '    ', '- a\n\n        code in item', 'a  \nb', '{: #i }', 'k: v']
+CONTAINERS = ['div', 'div', 'section', 'blockquote', 'article', 'aside', 'details', 'p', 'span', 'li', 'td', 'h1', 'pre', 'table']
+MDATTR = ['markdown="1"', 'markdown="1"', 'markdown="block"', 'markdown="span"', 'markdown', "markdown='1'", 'markdown="0"', 'markdown=1', 'MARKDOWN="1"', 'markdown="1" id="i"', 'class="c" markdown="1"']
+
+
+def md_container(rng, depth=0):
+    tag = rng.choice(CONTAINERS); attr = rng.choice(MDATTR)
+    items = []
+    for _ in range(rng.randint(1, 5)):
+        r = rng.random()
+        if r < 0.42: items.append(rng.choice(RAW_BLOCKS))
+        elif r < 0.88 or depth >= 2: items.append(rng.choice(MD_BLOCKS))
+        else: items.append(md_container(rng, depth + 1))
+    body = ''
+    for i, it in enumerate(items):
+        body += it + (rng.choice(['\n', '\n\n', '\n\n', '\n\n\n']) if i < len(items) - 1 else '')
+    op = '<%s %s>' % (tag, attr)
+    close = rng.choice(['</%s>' % tag] * 8 + ['', '</%s>' % rng.choice(CONTAINERS)])
+    glue1 = rng.choice(['\n', '\n', '\n\n', '', ' '])
+    glue2 = rng.choice(['\n', '\n', '\n\n', '', ' '])
+    return op + glue1 + body + glue2 + close
+
+
+def md_in_html_doc(rng):
+    parts = []
+    for _ in range(rng.randint(1, 3)):
+        r = rng.random()
+        c = md_container(rng)
+        if r < 0.1: c = ''.join(' ' * rng.randint(1, 4) + ln + '\n' for ln in c.split('\n')).rstrip('\n')
+        elif r < 0.18: c = '- ' + c.replace('\n', '\n    ')
+        elif r < 0.24: c = '> ' + c.replace('\n', '\n> ')
+        parts.append(c)
+        if rng.random() < 0.4: parts.append(rng.choice(MD_BLOCKS + RAW_BLOCKS))
+    return rng.choice(['\n\n', '\n\n', '\n']).join(parts), 'md-in-html'
